@@ -247,15 +247,23 @@ func (d *Decoder) ReadLenTagObject(tag byte) (interface{}, error) {
 	return EnsureInterface(d.readObject(typ, clsD))
 }
 
-//readObjectDef read object def
-func (d *Decoder) readObjectDef() (interface{}, error) {
+// readAndAddClassDef reads a class definition (after its tag) and adds it to the table
+func (d *Decoder) readAndAddClassDef() error {
 	clsDef, err := d.readClassDef()
 	if err != nil {
-		return nil, err
+		return err
 	}
 	clsD, _ := clsDef.(ClassDef)
 	//add to slice
 	d.clsDefList = append(d.clsDefList, clsD)
+	return nil
+}
+
+//readObjectDef read object def
+func (d *Decoder) readObjectDef() (interface{}, error) {
+	if err := d.readAndAddClassDef(); err != nil {
+		return nil, err
+	}
 
 	// value ::= class-def value : the definition may be followed by any value (another
 	// definition, an instance of an earlier class, a list, ...), not only by its own instance
